@@ -134,4 +134,31 @@ CLAIMS = {
         "note": _STD_NOTE + " One known finding recorded (SQLite arm of 3b0a6e67cc58 rewrites job.start_time/end_time). Undecided: row-by-row equality after an upgrade.",
         "technique": "static analysis: constant extraction, syntactic interpretation of alembic op.* calls, lightweight SQL statement classification",
     },
+    "C06": {
+        "text": "Hand-off invariant behind deduplication on every path: pending-table store dominates both executor submits, duplicate lookup dominates cache and "
+        "resource use, one submit per lifecycle trace, key-shape agreement, finaliser ordering (record_call_node < record_job_end < settle < finalize) on every "
+        "path, exactly-once registration of expressions in _evaluate_apply, and the only dedup-skipping exits are the two the property exempts.",
+        "note": _STD_NOTE + " Undecided: the quantification over interleavings as such (no schedule is enumerated); executor-side double reporting.",
+        "technique": "static analysis: CFG dominance/must-pass, lifecycle path enumeration, event-order rules",
+    },
+    "C09": {
+        "text": "No lost wake-up and no dropped job in the scheduler's control flow: release->wake pairing on all paths, hand-off typestate from the lifecycle "
+        "interpreter (stop without continuation only under dry-run), exact partition and re-nomination of the wait queue, job-set pairing, event-loop condition, "
+        "non-strict limit test, rejection handler on the done chain.",
+        "note": _STD_NOTE + " Undecided: termination of user code and executor threads (C10), fairness of the wait queue.",
+        "technique": "static analysis: lifecycle abstract interpretation (typestate), CFG must-pass, linear-form normalisation",
+    },
+    "C12": {
+        "text": "ErrorValue gate in _get_cache by dominance facts, promise error discipline over every discarded chain and every scheduler-task return in three "
+        "modules, effect order of the reject finaliser on all provenance paths, workflow-level rejection and re-raise, constant agreement.",
+        "note": _STD_NOTE + " Undecided: equality of exception type/message at run time.",
+        "technique": "static analysis: CFG dominance facts, syntactic promise-chain discipline, lifecycle event order",
+    },
+    "C28": {
+        "text": "First clause only (a dry run never calls a task function or submits a job): lifecycle interpretation with dryrun=True contains no submit/consume/"
+        "rollback/postprocess/cache event, dominance of every such effect by the not-dry-run outcome, who-may-call Executor.submit*, forwarding to "
+        "sub-schedulers, loop stop and DryRunResult mapping.",
+        "note": _STD_NOTE + " The prediction clauses (returned value equals a real run's, 'would execute at least one task') quantify over backend histories and are not decided.",
+        "technique": "static analysis: lifecycle abstract interpretation, dominance facts, who-may-call through the Executor class hierarchy",
+    },
 }
